@@ -85,6 +85,10 @@ Fixpoint expr_toks (e : expr) : toks :=
   | EMacro name args => [I name; P "!"; G Paren args]
   | ELet m x e => I "let" :: (if m then [I "mut"] else []) ++ [I x; P "="] ++ expr_toks e ++ [P ";"]
   | ESemi e => expr_toks e ++ [P ";"]
+  | ECallT f args => expr_toks f ++ [G Paren (each_then comma (map expr_toks args))]
+  | EMatchC s arms =>
+      I "match" :: expr_toks s ++
+      [G Brace (flat_map (fun '(p, b) => pat_toks p ++ [P "=>"] ++ expr_toks b ++ comma) arms)]
   end.
 
 Definition block_toks (b : block) : toks := flat_map expr_toks b.
